@@ -46,7 +46,7 @@ theorem put_skip {m0 m : Mem} {cd pd} (h : Mid m0 cd pd m) (hk : SkipInv m0 cd p
     ⟨by rw [appendPut_sketch, p7]; exact hk.sketch, by rw [appendPut_sketch, appendPut_pSketch, p7, p10]; exact hk.pSk,
      fun h0 => by simp at h0⟩
   have s1 := afterAppend_noac ((pre m a).appendPut a none none) t hac
-  have s2 := same_addCards (((pre m a).appendPut a none none).afterAppend t) a.nc ((pre m a).seq + 1)
+  have s2 := same_addCards (((pre m a).appendPut a none none).afterAppend t) a.nc (pre m a).nextFrameId
   exact ⟨s2.mid (s1.mid h1), s2.skipInv (s1.skipInv hk1)⟩
 
 /-- the puts of one group -/
